@@ -278,6 +278,35 @@ func upExec(c *hlib.RunCtx, t *simrt.Tape) (*hlib.Violation, int) {
 				removedAt[filepath.Join(c.Dir, fc.Path)] = fc.Idx
 			}
 		}
+		// ... and a report that is in place is a whole one: a file cut short by the
+		// failure must not pass for the week's report (the counter files are gone,
+		// nothing could rebuild it), and nothing cut short is sent.
+		for _, p := range names {
+			mf := m.roundFiles[p]
+			if exists(p) || hadBefore[mf.week] || m.viol != nil {
+				continue
+			}
+			for _, rp := range []string{filepath.Join(m.loc, "local."+mf.week+".json"), filepath.Join(m.loc, mf.week+".json")} {
+				data, err := os.ReadFile(rp)
+				if err != nil {
+					continue
+				}
+				var top map[string]any
+				if json.Unmarshal(data, &top) != nil || top["Week"] != mf.week {
+					m.fail("partial-report-in-place", "after a failed file-system call %s was removed and %s (%d bytes) is not a complete report of week %s", mf.base, s.Rel(rp), len(data), mf.week)
+				}
+			}
+		}
+		for _, r := range s.Requests {
+			week := r.URL[strings.LastIndex(r.URL, "/")+1:]
+			if _, built := reportAt[week]; !built || hadBefore[week] {
+				continue // a report found in the directory is sent as it is
+			}
+			var top map[string]any
+			if json.Unmarshal(r.Body, &top) != nil && m.viol == nil {
+				m.fail("body-not-a-report", "after a failed file-system call the report built for week %s is sent as %d bytes that are not a JSON report", week, len(r.Body))
+			}
+		}
 		for _, p := range names {
 			mf := m.roundFiles[p]
 			if exists(p) || m.reportExists(mf.week) || hadBefore[mf.week] || m.viol != nil {
